@@ -351,6 +351,16 @@ class V:
                     self.add("pattern-invalid", path + ("pattern",), "invalid STIX pattern: %s" % (errs[0],))
         elif name == "marking-definition":
             dt, d, ext = o.get("definition_type"), o.get("definition"), o.get("extensions")
+            # 2.0 part 1 section 4.1 / 2.1 section 7.2.1: object_marking_refs and granular_markings of a marking definition
+            # "MUST NOT contain any references to this Marking Definition object (i.e., it cannot contain any circular references)"
+            own = o.get("id")
+            if isinstance(own, str):
+                omr = o.get("object_marking_refs")
+                if isinstance(omr, list) and own in omr:
+                    self.add("co-constraint:marking-definition-marks-itself", path + ("object_marking_refs",), "a marking definition must not be marked with itself")
+                gms = o.get("granular_markings")
+                if isinstance(gms, list) and any(isinstance(g, dict) and g.get("marking_ref") == own for g in gms):
+                    self.add("co-constraint:marking-definition-marks-itself", path + ("granular_markings",), "a marking definition must not be marked with itself")
             if self.version == "2.0" or not ext:
                 if dt is None or d is None:
                     if self.version == "2.1":
